@@ -45,7 +45,8 @@ PROGRAMS = {
 BLOCK_FOREVER = "import threading\nlock = threading.Lock()\nlock.acquire()\nlock.acquire()\n"
 
 ENTRIES = ['run', 'call', 'evaluate', 'import']
-INTERLEAVINGS = ['unforced', 'zombie-first', 'grader-first', 'zombie-during-next', 'zombie-after-next', 'outer-interrupt-before-inner']
+INTERLEAVINGS = ['unforced', 'zombie-first', 'grader-first', 'zombie-during-next', 'zombie-after-next', 'outer-interrupt-before-inner',
+                 'zombie-between-numbering-and-recording-of-next']
 HISTORIES = ['fresh', 'two-earlier-runs', 'earlier-runs-then-clear_context']
 NEXT_KINDS = ['run-print', 'call-add', 'evaluate-expr', 'run-threaded', 'run-input', 'run-long']
 
@@ -305,6 +306,11 @@ def run_case(ctx, case):
         ctl.holds.append(('G', '_start_mocking', 'return', 1, 'zombie-done', 1))
     elif inter == 'zombie-after-next':
         ctl.holds.append(('Z1', ZH, 'start', 1, 'next-returned', 1))
+    elif inter == 'zombie-between-numbering-and-recording-of-next':
+        # the next call()/evaluate() has taken its execution number but not yet created its record when the abandoned thread gets
+        # to finish (the grader is inside _execute for the 2nd time: the 1st was the timed-out execution itself)
+        ctl.holds.append(('Z1', ZH, 'start', 1, ('G', '_execute', 'start'), 2))
+        ctl.holds.append(('G', '_execute', 'start', 2, 'zombie-done', 1))
     elif inter == 'outer-interrupt-before-inner':
         # multi-file submissions: the thread running the main file (Z1) waits, with its own time limit, for the thread that
         # imports the helper file (Z2). Both limits expire together; here the grader's interrupt reaches Z1 just before Z1
@@ -376,7 +382,7 @@ def run_case(ctx, case):
         # ---- next executions ---------------------------------------------------------------------------
         got_next = []
         nexts_done = 0
-        if inter in ('zombie-during-next', 'zombie-after-next', 'unforced'):
+        if inter in ('zombie-during-next', 'zombie-after-next', 'unforced', 'zombie-between-numbering-and-recording-of-next'):
             # the abandoned thread is (possibly) still pending while the next execution runs
             got_next.append(do_next(sbx, nexts[0]))
             nexts_done = 1
@@ -684,6 +690,10 @@ def confirm_order(inter, log, entry):
     if inter == 'zombie-after-next':
         nr = idx(log, 'flag:next-returned')
         return zs is not None and nr is not None and zdone is not None and nr < zdone
+    if inter == 'zombie-between-numbering-and-recording-of-next':
+        g2 = idx(log, 'G:_execute:start', 2)
+        rel = idx(log, 'G:released-after:zombie-done')
+        return zs is not None and g2 is not None and zdone is not None and rel is not None and g2 < zdone < rel
     if inter == 'outer-interrupt-before-inner':
         zt = idx(log, 'Z1:terminate:start')
         gt = idx(log, 'G:terminate:return')
@@ -720,6 +730,8 @@ def all_cases(ctx):
                     continue
                 if inter == 'outer-interrupt-before-inner' and entry != 'import':
                     continue
+                if inter == 'zombie-between-numbering-and-recording-of-next' and (entry == 'import' or prog == 'swallow-then-finish'):
+                    continue
                 if entry == 'import' and inter in ('unforced', 'outer-interrupt-before-inner'):
                     # nested student threads (Sandbox.threaded = True: the import of the helper file gets a thread and a limit of
                     # its own); the other named interleavings are defined for one student thread
@@ -747,6 +759,8 @@ def run(ctx):
             k = rng.sample(NEXT_KINDS, 3)
             if k[0] == 'run-threaded':      # the first later execution must run in the grader thread to be gated
                 k[0], k[1] = k[1], k[0]
+            if c['interleaving'] == 'zombie-between-numbering-and-recording-of-next':
+                k = [rng.choice(['call-add', 'evaluate-expr'])] + [x for x in k if x not in ('call-add', 'evaluate-expr')][:2]
             case['next'] = k
             case['history'] = rng.choice(HISTORIES)
             if 'threaded_via' not in case:
